@@ -210,11 +210,11 @@ Qed.
 
 (* in a state that satisfies the invariant, unlock_() of a node that lies strictly below a locked node is refused: the locked
    node is among its registered parents *)
-Lemma unlock_below_locked_refused : forall U s q nq np,
+Lemma unlock_below_locked_refused : forall fx U s q nq np,
   Good U s -> In nq (nodes s) -> n_path nq = q -> In np (nodes s) -> flag_locked np = true -> proper_prefix (n_path np) q = true ->
-  snd (unlock_ s q) = RaisedLock.
+  snd (unlock_ fx s q) = RaisedLock.
 Proof.
-  intros U s q nq np G Hq Pq Hp Lp PP. unfold unlock_.
+  intros fx U s q nq np G Hq Pq Hp Lp PP. unfold unlock_.
   assert (Fq : find_node s q = Some nq) by (rewrite <- Pq; apply find_node_of_in; [apply (g_nodup U s G)|assumption]).
   rewrite Fq.
   assert (Reg : In (n_path np) (n_parents nq)) by (eapply (g_pc U s G np nq); eauto; now rewrite Pq).
@@ -262,8 +262,8 @@ Proof.
   unfold is_node_path in Hp, Hq. destruct (find_node s p) as [n0|] eqn:F0; [|discriminate]. destruct (find_node s q) as [m0|] eqn:Fq; [|discriminate].
   destruct (memmap_nodes hk s p base n0 F0) as [F [En [Kp Kl]]].
   destruct (find_node_in s p n0 F0) as [Hn0 Pn0], (find_node_in s q m0 Fq) as [Hm0 Pm0].
-  cbn [step]. change (snd (unlock_ (fst (step repo hk s (OMemmap p base))) q) = RaisedLock).
-  apply (unlock_below_locked_refused U _ q (F m0) (F n0) G').
+  cbn [step]. change (snd (unlock_ repo (fst (step repo hk s (OMemmap p base))) q) = RaisedLock).
+  apply (unlock_below_locked_refused repo U _ q (F m0) (F n0) G').
   - rewrite En. now apply in_map.
   - now rewrite Kp.
   - rewrite En. now apply in_map.
@@ -271,11 +271,132 @@ Proof.
   - now rewrite Kp, Pn0.
 Qed.
 
+(* ---------------------------------------------------------------- make_memmap* with a nested key (D69 repaired) *)
+(* a new node, without cache, at a path where (and below which) there is nothing; every locked node above it is registered in
+   it and holds no entry (it has just erased): the invariant goes on *)
+Lemma append_node_good : forall U s0 nn b,
+  Good U s0 -> n_kind nn = NTD -> n_flag nn = Some b -> n_cache nn = [] ->
+  (forall n, In n (nodes s0) -> is_prefix (n_path nn) (n_path n) = false) ->
+  (forall a, In a (nodes s0) -> flag_locked a = true -> proper_prefix (n_path a) (n_path nn) = true ->
+             b = true /\ In (n_path a) (n_parents nn) /\ n_cache a = []) ->
+  Good U {| nodes := nodes s0 ++ [nn]; leaves := leaves s0; store := store s0 |}.
+Proof.
+  intros U s0 nn b G K Fl C Below Above.
+  assert (Lnn : flag_locked nn = b) by (unfold flag_locked; now rewrite Fl).
+  assert (Inn : forall n, In n (nodes s0 ++ [nn]) -> In n (nodes s0) \/ n = nn).
+  { intros n H. apply in_app_or in H. destruct H as [H|[H|[]]]; auto. }
+  assert (Proper : forall n, In n (nodes s0) -> is_prefix (n_path n) (n_path nn) = true -> proper_prefix (n_path n) (n_path nn) = true).
+  { intros n Hn P. destruct (prefix_split _ _ P) as [E|E]; [|exact E]. exfalso.
+    assert (X := Below n Hn). rewrite E, is_prefix_refl in X. discriminate. }
+  constructor; cbn [nodes].
+  - rewrite map_app. cbn. apply NoDup_app_one; [apply (g_nodup U s0 G)|].
+    intros Hin. apply in_map_iff in Hin. destruct Hin as [y [E Hy]]. assert (X := Below y Hy). rewrite E, is_prefix_refl in X. discriminate.
+  - intros n H. destruct (Inn n H) as [H0| ->]; [now apply (g_td U s0 G)|]. split; [exact K|rewrite Fl; discriminate].
+  - intros n x Hn Hx L P. destruct (Inn n Hn) as [Hn0| ->], (Inn x Hx) as [Hx0| ->].
+    + eapply (g_lc U s0 G n x); eauto.
+    + rewrite Lnn. destruct (Above n Hn0 L (Proper n Hn0 P)) as [B _]. exact B.
+    + exfalso. rewrite (Below x Hx0) in P. discriminate.
+    + exact L.
+  - intros n x Hn Hx L P. destruct (Inn n Hn) as [Hn0| ->], (Inn x Hx) as [Hx0| ->].
+    + eapply (g_pc U s0 G n x); eauto.
+    + now destruct (Above n Hn0 L P) as [_ [R _]].
+    + exfalso. apply proper_is_prefix in P. rewrite (Below x Hx0) in P. discriminate.
+    + rewrite proper_prefix_irrefl in P. discriminate.
+  - intros n H L. destruct (Inn n H) as [H0| ->]; [now apply (g_ue U s0 G)|exact C].
+  - intros n e H He. destruct (Inn n H) as [Hn0| ->]; [|rewrite C in He; contradiction].
+    assert (Ln : flag_locked n = true).
+    { destruct (flag_locked n) eqn:Ln; [reflexivity|]. rewrite (g_ue U s0 G n Hn0 Ln) in He. contradiction. }
+    destruct (is_prefix (n_path n) (n_path nn)) eqn:P.
+    + exfalso. destruct (Above n Hn0 Ln (Proper n Hn0 P)) as [_ [_ Ce]]. rewrite Ce in He. contradiction.
+    + eapply entry_ok_view; [reflexivity| |apply (g_inv U s0 G n e Hn0 He)].
+      apply (view_irrelevant s0 _ (n_path n) (n_path nn) P (Below n Hn0)).
+      * unfold skel. cbn [nodes]. rewrite map_app, filter_app. cbn. rewrite is_prefix_refl. cbn. now rewrite app_nil_r.
+      * reflexivity.
+      * eapply good_all_td; eauto.
+      * intros y Hy. cbn [nodes] in Hy. destruct (Inn y Hy) as [Hy0| ->]; [now destruct (g_td U s0 G y Hy0)|exact K].
+Qed.
+
+Lemma erase_owner_shape : forall s (o : node), exists f,
+  nodes (erase_touched s (fun x => path_eqb x (n_path o))) = map f (nodes s)
+  /\ (forall n, n_path (f n) = n_path n /\ n_flag (f n) = n_flag n)
+  /\ (forall n, erased s (fun x => path_eqb x (n_path o)) n = true -> n_cache (f n) = []).
+Proof.
+  intros s o. rewrite erase_touched_eq. eexists. split; [reflexivity|]. cbn beta. split.
+  - intros n. destruct (erased s _ n); split; reflexivity.
+  - intros n E. now rewrite E.
+Qed.
+
+Lemma attach_good : forall U s p uid o,
+  Good U s -> find_node s (parent_of p) = Some o ->
+  (forall n, In n (nodes s) -> is_prefix p (n_path n) = false) ->
+  Good U (attach_node repo s p uid o).
+Proof.
+  intros U s p uid o G F Below. destruct (find_node_in s _ o F) as [Ho Po].
+  unfold attach_node. cbn [fix_rebind fix_attach repo andb].
+  destruct (flag_locked o) eqn:L.
+  - (* the owner is locked: it has erased upwards; the new node is locked under the owner and the owner's lock parents *)
+    assert (G0 : Good U (erase_touched s (fun x => path_eqb x (n_path o)))).
+    { apply (erase_touched_good U s s (fun x => x) (fun x => path_eqb x (n_path o))); auto.
+      - now rewrite map_id.
+      - intros; apply id_keeps.
+      - intros y Hy Ty. apply path_eqb_eq in Ty. assert (y = o) by (apply (nodup_path_inj (nodes s)); auto; apply (g_nodup U s G)). now subst. }
+    destruct (erase_owner_shape s o) as [f [En [Kf Ef]]].
+    assert (Kp : forall n, n_path (f n) = n_path n /\ flag_locked (f n) = flag_locked n).
+    { intros n. unfold flag_locked. destruct (Kf n) as [A B]. rewrite A, B; split; reflexivity. }
+    apply (append_node_good U _ _ true G0); try reflexivity.
+    + intros x Hx. rewrite En in Hx. apply in_map_iff in Hx. destruct Hx as [n [<- Hn]]. rewrite (proj1 (Kp n)). now apply Below.
+    + intros x Hx Lx Px. rewrite En in Hx. apply in_map_iff in Hx. destruct Hx as [n [<- Hn]].
+      destruct (Kp n) as [Kpn Kln]. rewrite Kpn in *. rewrite Kln in Lx. cbn [n_path n_parents new_node] in *.
+      assert (Pa : is_prefix (n_path n) (n_path o) = true) by (rewrite Po; now apply proper_prefix_parent).
+      split; [reflexivity|]. destruct (prefix_split _ _ Pa) as [E|E].
+      * assert (n = o) by (apply (nodup_path_inj (nodes s)); auto; apply (g_nodup U s G)). subst n. split.
+        -- apply in_or_app. right. now left.
+        -- apply Ef. unfold erased. now rewrite path_eqb_refl.
+      * assert (R : In (n_path n) (n_parents o)) by (eapply (g_pc U s G n o); eauto). split.
+        -- apply in_or_app. now left.
+        -- apply Ef. unfold erased. apply orb_true_iff. right. apply existsb_exists. exists o. split; [assumption|].
+           rewrite path_eqb_refl. cbn. now apply path_mem_in.
+  - (* the owner is not locked: nothing above it is (lock closure) *)
+    apply (append_node_good U s _ false G); try reflexivity.
+    + exact Below.
+    + intros a Ha La Pa. exfalso. cbn [n_path new_node] in Pa.
+      assert (is_prefix (n_path a) (n_path o) = true) by (rewrite Po; now apply proper_prefix_parent).
+      assert (flag_locked o = true) by (eapply (g_lc U s G a o); eauto). congruence.
+Qed.
+
+Lemma parent_of_app_one : forall (p : path) k, parent_of (p ++ [k]) = p.
+Proof. intros. unfold parent_of. apply removelast_last. Qed.
+
+Lemma make_memmap_nested_good : forall U hk s p uid k l,
+  Good U s -> Good U (fst (step repo hk s (OMakeMemmapNested p uid k l))).
+Proof.
+  intros U hk s p uid k l G. cbn [step].
+  destruct (find_node s (parent_of p)) as [o|] eqn:F; [|exact G]. destruct p as [|x0 p0]; [exact G|]. set (p := x0 :: p0) in *.
+  destruct (negb (n_memmap o)); [exact G|]. destruct (has_leaf s p); [exact G|].
+  destruct (negb (is_node_path s p) && _) eqn:Tree; [exact G|].
+  set (s1 := if is_node_path s p then s else attach_node repo s p uid o).
+  assert (G1 : Good U s1).
+  { unfold s1. destruct (is_node_path s p) eqn:Ex; [exact G|]. apply attach_good; auto.
+    intros n Hn. cbn [negb andb] in Tree. apply orb_false_iff in Tree. destruct Tree as [T _].
+    destruct (is_prefix p (n_path n)) eqn:P; [|reflexivity]. exfalso.
+    assert (X : existsb (fun x => is_prefix p (n_path x)) (nodes s) = true) by (apply existsb_exists; now exists n). congruence. }
+  destruct (find_node s1 p) as [x|] eqn:Fx; [|exact G1].
+  destruct (is_node_path s1 (p ++ [k]) || has_leaf s1 (p ++ [k])) eqn:Ex; [exact G1|].
+  apply orb_false_iff in Ex. destruct Ex as [Ex _].
+  rewrite parent_of_app_one. cbn [fix_rebind repo andb].
+  assert (Fx' : find_node s1 (parent_of (p ++ [k])) = Some x) by now rewrite parent_of_app_one.
+  assert (Ne : p ++ [k] <> []) by (intros E; apply app_eq_nil in E; destruct E; discriminate).
+  destruct (flag_locked x) eqn:L; cbn [fst].
+  - replace (fun y => path_eqb y p) with (fun y => path_eqb y (parent_of (p ++ [k]))) by (now rewrite parent_of_app_one).
+    eapply rebind_good; eauto. eapply no_node_at; eauto.
+  - eapply (unlocked_rebind_good U s1 (p ++ [k]) l x); eauto. eapply no_node_at; eauto.
+Qed.
+
 (* ---------------------------------------------------------------- every write permitted under lock *)
 (* the ops of the full statement; memmap_() of any node is among them now that it locks through the lock graph (D7 repaired) *)
 Definition permitted_op (U : list obj) (o : op) : Prop :=
   match o with
-  | OPromote _ _ | OMakeMemmap _ _ | OSetNames _ _ | OSetBatchSize _ _ | OMemmap _ _ => True
+  | OPromote _ _ | OMakeMemmap _ _ | OMakeMemmapNested _ _ _ _ | OSetNames _ _ | OSetBatchSize _ _ | OMemmap _ _ => True
   | o => clean_op U o
   end.
 
@@ -300,6 +421,8 @@ Proof.
     cbn [fix_rebind repo andb]. destruct (flag_locked n) eqn:L; cbn [fst].
     + eapply rebind_good; eauto; [discriminate|]. eapply no_node_at; eauto.
     + eapply (unlocked_rebind_good U s (x :: p) l n); eauto. eapply no_node_at; eauto.
+  - (* OMakeMemmapNested *)
+    exact (make_memmap_nested_good U hk s p uid k l G).
   - (* OMemmap *)
     exact (memmap_good U hk s p base G).
   - (* OSetNames *)
